@@ -260,6 +260,8 @@ func (f *SecretFactory) New(b []byte) (securememory.Secret, error) {
 			err = errors.Wrap(err, err2.Error())
 		}
 
+		secret.discard()
+
 		return nil, err
 	}
 
@@ -290,6 +292,8 @@ func (f *SecretFactory) createRandom(size int, readFunc func(b []byte) (n int, e
 			err = errors.Wrap(err, err2.Error())
 		}
 
+		s.discard()
+
 		return nil, err
 	}
 
@@ -305,6 +309,8 @@ func (f *SecretFactory) createRandom(size int, readFunc func(b []byte) (n int, e
 			err = errors.Wrap(err, err2.Error())
 		}
 
+		s.discard()
+
 		return nil, err
 	}
 
@@ -312,6 +318,20 @@ func (f *SecretFactory) createRandom(size int, readFunc func(b []byte) (n int, e
 	securememory.InUseCounter.Inc(1)
 
 	return s, nil
+}
+
+// discard marks a secret whose creation failed, and whose pages have been handed back, as closed and
+// clears its finalizer: the address range may belong to another secret by the time the collector gets
+// to this one, so neither Close nor the finalizer may touch it again.
+func (s *secret) discard() {
+	runtime.SetFinalizer(s.dummy, nil)
+
+	s.rw.Lock()
+	defer s.rw.Unlock()
+
+	s.bytes = nil
+	s.closing = true
+	s.closed = true
 }
 
 // newSecret handles the core allocation/setup of a new secret of the given size.
